@@ -45,14 +45,22 @@ def main():
     open(demo_path, "w").write(demo_src)
     moddir = wt + "/api" if demo_rel.startswith("api/") else wt
     pkgarg = "./" + os.path.dirname(demo_rel[4:]) if demo_rel.startswith("api/") else pkg
-    rc0, out0 = sh("go test -count=1 %s" % pkgarg, cwd=moddir)
+    # honour -race / -run of the agent's own demo command (a package may contain an always-failing test)
+    dc = meta.get("demo_command", "") + " " + demo_src.splitlines()[0]
+    extra = ""
+    if "-race" in dc:
+        extra += " -race"
+    mrun = re.search(r"-run[ =]+'?\"?([^'\" ]+)", dc)
+    if mrun:
+        extra += " -run '%s'" % mrun.group(1)
+    rc0, out0 = sh("go test -count=1%s %s" % (extra, pkgarg), cwd=moddir)
     res["demo_passes_without_patch"] = rc0 == 0
     # --- with the patch: existing tests pass, demo fails
     rc, out = sh("git apply SEED/patch.diff", cwd=wt)
     if rc != 0:
         print("patch does not apply:", out)
         return 2
-    rc1, out1 = sh("go test -count=1 %s" % pkgarg, cwd=moddir)
+    rc1, out1 = sh("go test -count=1%s %s" % (extra, pkgarg), cwd=moddir)
     res["demo_fails_with_patch"] = rc1 != 0
     os.remove(demo_path)
     rcb, outb = sh("go build ./... && go vet ./controllers/... ./pkg/... 2>&1 | tail -3", cwd=wt)
